@@ -340,29 +340,40 @@ Definition quiet (s : st) : bool :=
 Definition pop_bit (bits : list bool) : bool * list bool :=
   match bits with [] => (false, []) | b :: r => (b, r) end.
 
-(* one pass: every live goroutine pair takes a ticker step and a worker step; a racy select consumes a bit *)
-Fixpoint visit (rc : bool) (pos : list (nat * nat)) (bits : list bool) (s : st) (acc : list event)
+(* one pass: every goroutine in the list takes one step; a racy select consumes a bit.
+   A position is (endpoint object, generation, is_worker). *)
+Fixpoint visit (rc : bool) (pos : list (nat * nat * bool)) (bits : list bool) (s : st) (acc : list event)
   : st * list event * list bool :=
   match pos with
   | [] => (s, acc, bits)
-  | (k, gi) :: r =>
-      let '(b1, bits1) := match gen_at s k gi with
-                          | Some (i, g) => if ticker_racy i g then pop_bit bits else (false, bits)
-                          | None => (false, bits) end in
-      let '(s1, e1) := micro rc s (MTicker k gi b1) in
-      let '(b2, bits2) := match gen_at s1 k gi with
-                          | Some (i, g) => if worker_racy i g then pop_bit bits1 else (false, bits1)
-                          | None => (false, bits1) end in
-      let '(s2, e2) := micro rc s1 (MWorker k gi b2) in
-      visit rc r bits2 s2 (acc ++ e1 ++ e2)
+  | (k, gi, w) :: r =>
+      let '(b, bits1) := match gen_at s k gi with
+                         | Some (i, g) => if (if w then worker_racy i g else ticker_racy i g) then pop_bit bits else (false, bits)
+                         | None => (false, bits) end in
+      let '(s1, e1) := micro rc s (if w then MWorker k gi b else MTicker k gi b) in
+      visit rc r bits1 s1 (acc ++ e1)
   end.
 
-Fixpoint settle (rc : bool) (fuel : nat) (bits : list bool) (s : st) (acc : list event) : st * list event :=
+Definition goroutines (s : st) : list (nat * nat * bool) :=
+  flat_map (fun p => [(fst p, snd p, false); (fst p, snd p, true)]) (inc_positions O (incs s)).
+
+(* the order in which the runnable goroutines get to run is the scheduler's choice too (it matters when
+   two of them compete: two tickers blocked on the same full trigger channel, two workers at the same
+   channel): [ord] picks one of a few orders — rotation by ord/2, reversed when ord is odd *)
+Fixpoint rotate {A} (k : nat) (l : list A) : list A :=
+  match k, l with
+  | S k', x :: r => rotate k' (r ++ [x])
+  | _, _ => l
+  end.
+Definition reorder {A} (ord : nat) (l : list A) : list A :=
+  let r := rotate (Nat.div ord 2) l in if Nat.odd ord then rev r else r.
+
+Fixpoint settle (rc : bool) (fuel : nat) (ord : nat) (bits : list bool) (s : st) (acc : list event) : st * list event :=
   match fuel with
   | O => (s, acc)
   | S f => if quiet s then (s, acc)
-           else let '(s', acc', bits') := visit rc (inc_positions O (incs s)) bits s acc in
-                settle rc f bits' s' acc'
+           else let '(s', acc', bits') := visit rc (reorder ord (goroutines s)) bits s acc in
+                settle rc f ord bits' s' acc'
   end.
 
 Definition settle_fuel (s : st) : nat := (4 * List.length (inc_positions O (incs s)) + 4)%nat.
@@ -406,6 +417,6 @@ Fixpoint run_events (rc : bool) (s : st) (ms : list mstep) (acc : list event) : 
   | m :: r => let '(s', e) := micro rc s m in run_events rc s' r (acc ++ e)
   end.
 
-Definition macro (rc : bool) (s : st) (o : op) (choice : nat) (bits : list bool) : st * list event :=
+Definition macro (rc : bool) (s : st) (o : op) (choice : nat) (ord : nat) (bits : list bool) : st * list event :=
   let '(s1, e1) := run_events rc s (action s o choice) [] in
-  settle rc (settle_fuel s1) bits s1 e1.
+  settle rc (settle_fuel s1) ord bits s1 e1.
